@@ -39,10 +39,13 @@ for (l, mask, tier) in ((65, 1, 'quick'), (0, 7, 'quick'), (65, 0, 'thorough'), 
 
 for (l, tier) in ((7, 'quick'), (100, 'quick'), (600, 'deep')):
     for value in (False, True):
-        inst(['C19', 'C06'], 'c19_uniform_l%d_%s' % (l, 'ones' if value else 'zeros'), 'c19::uniform(%d, %s)' % (l, 'true' if value else 'false'), tier=tier, unwind=max(l, 64) + 4,
-             unwindset={r'memcmp': 600}, cap=900, mem=10,
-             desc='uniform BitVector (%d bits, all %d): every support built, written, loaded; == and rank/select/select_zero for a symbolic argument (the only shape where loaded select supports have concrete sizes)' % (l, 1 if value else 0),
-             shape={'len': l, 'bits': 'all ones' if value else 'all zeros'})
+        for regime in ('short', 'long'):
+            if regime == 'long' and l != 7:
+                continue
+            inst(['C19', 'C06'], 'c19_uniform_l%d_%s%s' % (l, 'ones' if value else 'zeros', '_long' if regime == 'long' else ''), 'c19::uniform(%d, %s)' % (l, 'true' if value else 'false'), tier=tier, unwind=max(l, 64) + 4,
+                 unwindset={r'memcmp': 600}, stubs=['force_long'] if regime == 'long' else [], cap=900, mem=10,
+                 desc='uniform BitVector (%d bits, all %d, %s-superblock regime): every support built, written, loaded; == and rank/select/select_zero for a symbolic argument (the only shape where loaded select supports have concrete sizes)' % (l, 1 if value else 0, regime),
+                 shape={'len': l, 'bits': 'all ones' if value else 'all zeros', 'regime': regime})
 
 extra(P, assumptions=['real RankSupport / SelectSupport construction (both on the original and on the loaded copy); R2 allocation stubs where a SelectSupport is built',
                       'embedding structures loading from support-free parts: C04 (wavelet matrix), C02/C07 (sparse) use specification stubs that fail when a needed support was never enabled'],
